@@ -128,10 +128,10 @@ func (a Acc) Go() macaroon.Access {
 			d.Flyio = append(d.Flyio, &auth.FlyioAuth{UserID: f.User, OrganizationIDs: f.Orgs})
 		}
 		for _, g := range a.Google {
-			d.Google = append(d.Google, &auth.GoogleAuth{HD: g})
+			d.Google = append(d.Google, &auth.GoogleAuth{HD: g, Email: "u@a.com"}) // the e-mail address is no hosted-domain claim
 		}
 		for _, g := range a.GitHub {
-			d.GitHub = append(d.GitHub, &auth.GitHubAuth{OrgIDs: g})
+			d.GitHub = append(d.GitHub, &auth.GitHubAuth{OrgIDs: g, UserID: 1, Login: "1"})
 		}
 		return d
 	case "ABare":
